@@ -171,10 +171,40 @@ class SymReal(Proxy):
         return ctx().decide(self.t != 0)
 
 
+fp_depth = None
+
+
+def _depth_fn():
+    global fp_depth
+    if fp_depth is None:
+        fp_depth = z3.Function("fp_depth", FP, z3.IntSort())
+    return fp_depth
+
+
 def fp_of(x):
-    """FP term of a tree whose leaves may be AbsNodes (the spec function of C09)"""
+    """FP term of a tree whose leaves may be AbsNodes (the spec function of C09).
+    Finite trees are well founded: the depth of a node exceeds the depth of each child.  z3 does not enforce
+    acyclicity of a datatype through sequences, so this fact is asserted explicitly for every built term."""
     if isinstance(x, AbsNode):
         return x.fp
+    t = _fp_of(x)
+    c = Ctx.cur
+    if c is not None and type(x).__name__ in SPEC:
+        d = _depth_fn()
+        for f, k in SPEC[type(x).__name__]:
+            v = getattr(x, f)
+            if k == "child":
+                c.assume(d(t) > d(fp_of(v)))
+            elif k == "ops":
+                for o in v:
+                    if isinstance(o, Run):
+                        c.assume(d(t) > o.depth.t)
+                    else:
+                        c.assume(d(t) > d(fp_of(o)))
+    return t
+
+
+def _fp_of(x):
     cname = type(x).__name__
     if type(x) not in UNIVERSE:
         raise EngineUnsupported("fp_of(%s)" % cname)
@@ -310,6 +340,7 @@ class Run(tree.Item):
     Answers only the observers for which a lifting lemma exists (lemmas/Seq.lean): join (L-J), fingerprint
     sequence (L-M), length (L-S); loud on anything else."""
     __vf_symbolic__ = True
+    __vf_run__ = True
 
     def __init__(self, name, op):
         d = self.__dict__
@@ -317,7 +348,9 @@ class Run(tree.Item):
         d["op"] = op
         d["jointext"] = SymStr(name=name + "_jointext")      # intercalate op (map text run)
         d["fpseq"] = z3.Const(fresh(name + "_fpseq"), FPSeq)
+        ctx().register(name + "_fpseq", d["fpseq"])
         d["count"] = SymInt(name=name + "_count")
+        d["depth"] = SymInt(name=name + "_depth")     # upper bound of the members' depths
         ctx().assume(d["count"].t >= 1)
         ctx().assume(z3.Length(d["fpseq"]) == d["count"].t)
 
@@ -333,7 +366,19 @@ class Run(tree.Item):
         return RunText(self)
 
     def __eq__(self, o):
-        raise EngineUnsupported("Run ==")
+        """L-Z: two runs of equal length are pointwise equal iff their fingerprint sequences are equal"""
+        if o is self:
+            return True
+        if not isinstance(o, Run):
+            raise EngineUnsupported("Run == non-run (operand shapes not aligned)")
+        c = ctx()
+        s = z3.Solver()
+        for p in c.pc:
+            s.add(p)
+        s.add(self.count.t != o.count.t)
+        if s.check() != z3.unsat:
+            raise EngineUnsupported("Run == Run without equal lengths on the path")
+        return SymBool(self.fpseq == o.fpseq)
 
     __hash__ = object.__hash__
 
@@ -372,6 +417,10 @@ class RunTuple(tuple):
             else:
                 n += 1
         return n if sym is None else sym + n
+
+
+from . import rewrite as _rewrite  # noqa: E402
+_rewrite.RUN_TUPLE[0] = RunTuple
 
 
 def text(x):
@@ -460,3 +509,49 @@ def make_instance(cls, name, layout="sym", implicit=False, nops=2, child_classes
     else:
         raise EngineUnsupported("no constructor recipe for %s" % cname)
     return inst, kids
+
+
+class FrameViolation(Exception):
+    """a location declared irrelevant by a contract (read frame) was used"""
+
+
+class PoisonValue:
+    """value of an attribute that the function under contract must not read: any use violates the read frame"""
+    __vf_symbolic__ = True
+
+    def __init__(self, what):
+        object.__setattr__(self, "_what", what)
+
+    def _boom(self, *a, **k):
+        raise FrameViolation("read of %s" % object.__getattribute__(self, "_what"))
+
+    __eq__ = __ne__ = __bool__ = __add__ = __radd__ = __len__ = __iter__ = __lt__ = __gt__ = __le__ = __ge__ = _boom
+    __sub__ = __rsub__ = __str__ = __int__ = __index__ = __contains__ = __getitem__ = __call__ = _boom
+    __hash__ = _boom
+
+    def __getattr__(self, k):
+        self._boom()
+
+    def __repr__(self):
+        return "<poison %s>" % object.__getattribute__(self, "_what")
+
+
+def poison_layout(node, name):
+    for k in ("head", "tail", "pos", "size"):
+        node.__dict__[k] = PoisonValue("%s.%s" % (name, k))
+    node.__dict__["_luqum_name"] = PoisonValue("%s._luqum_name" % name)
+
+
+def _run_enumerate(rt, start=0):
+    """enumerate over an operand tuple that contains a Run: the Run gets the index of its first member; the
+    elements after it get symbolic indices (L-S)"""
+    i = start
+    for x in rt:
+        yield i, x
+        if isinstance(x, Run):
+            i = i + x.count
+        else:
+            i = i + 1
+
+
+RunTuple.__vf_enumerate__ = lambda self, *a: _run_enumerate(self, *a)
